@@ -3,7 +3,7 @@
    stay the extracted inductive types. *)
 From Coq Require Import Extraction ExtrOcamlBasic.
 From Wencry Require Import Bytes AesSpec AesModel ModesSpec ModesModel HashSpec HashModel
-     Base64Spec Base64Model.
+     Base64Spec Base64Model FileModel FileSpec.
 Extraction Language OCaml.
 Set Extraction Optimize.
 Extraction "model.ml"
@@ -14,4 +14,6 @@ Extraction "model.ml"
   HashSpec.hash_spec HashSpec.hmac_spec HashModel.get_hasher HashModel.getStringHash
   HashModel.getFileHash HashModel.hmac_model HashModel.cmphmac
   Base64Spec.encode Base64Spec.decode Base64Model.hex_to_base64 Base64Model.base64_to_hex
-  Base64Model.is_valid_b64 Base64Model.get_key.
+  Base64Model.is_valid_b64 Base64Model.get_key
+  FileModel.enc FileModel.enc_writes FileModel.dec FileModel.ver FileModel.verify FileModel.loads_of FileModel.pipe_seq
+  FileSpec.wenc_spec FileSpec.wenc_length.
